@@ -55,6 +55,16 @@ def setKV {α : Type} (params : List (Str × α)) (k : Str) (v : α) : List (Str
   if params.any (·.1 = k) then params.map (fun kv => if kv.1 = k then (kv.1, v) else kv)
   else params ++ [(k, v)]
 
+/-- `if var.wrapper: value = value[var.local_name]` : the exception it leaks when the value
+found under the key is not an object holding the member (`find_var` also matches a wrapped
+var by its plain local name, and then the value is a list) -/
+def unwrapLeak (var : DVar) (value : JShape) : Option Err :=
+  if var.wrapper.isSome then
+    match value with
+    | .object ms => if ms.any (·.1 = var.localName) then none else some (.leaked "KeyError")
+    | _ => some (.leaked "TypeError")
+  else none
+
 /-- body of `for key, value in data.items()` in `bind_dataclass`;
 `bv var key value` stands for `bind_value` (+ `validate_fixed_value` when `init` is false) -/
 def bindStep {α : Type} (bv : DVar → Str → JShape → Except Err α) (cfg : ParserConfig) (vars : List DVar)
@@ -63,9 +73,12 @@ def bindStep {α : Type} (bv : DVar → Str → JShape → Except Err α) (cfg :
   | none =>
     if cfg.failOnUnknownProperties then .error (.parser "Unknown property") else .ok params
   | some var =>
-    match bv var kv.1 kv.2 with
-    | .error err => .error err
-    | .ok x => .ok (if var.init then setKV params var.name x else params)
+    match unwrapLeak var kv.2 with
+    | some err => .error err
+    | none =>
+      match bv var kv.1 kv.2 with
+      | .error err => .error err
+      | .ok x => .ok (if var.init then setKV params var.name x else params)
 
 /-- the loop of `bind_dataclass`: the keyword arguments handed to the class factory -/
 def bindPairs {α : Type} (bv : DVar → Str → JShape → Except Err α) (cfg : ParserConfig) (vars : List DVar)
